@@ -33,8 +33,10 @@ def handle : Handler := fun input impl =>
   match inconclusive impl with
   | some v => ("-", v)
   | none =>
+  -- the real code panicked inside a Shoot of a single-goroutine case (the framework recovered it): a runtime fault
+  if impl.startsWith "PANIC" then ("-", s!"fail:fatal:{impl.take 160}") else
   match getS kv "mode" with
-  | "locks" => ("static", judgeStatic tbl Pandora.Gen.Locks.closures Pandora.Gen.Locks.handoverSites)
+  | "locks" => ("static", judgeStatic tbl Pandora.Gen.Locks.closures Pandora.Gen.Locks.handoverSites Pandora.Gen.Locks.pkgVars)
   | "alias" =>
     let c := cfgOf kv
     let o : AliasObs := { guns := getS okv "guns", ammo := getS okv "ammo", served := getS okv "served",
@@ -52,7 +54,10 @@ def handle : Handler := fun input impl =>
       let o : IsolateObs := { together := tg.splitOn ";", solo := so.splitOn ";" }
       let chains := ((getS kv "chains").splitOn ";").mapM Pandora.Model.C11.parseChain
       let toks := ((getS kv "toks").splitOn ";").map fun t => if t == "_" then none else some t
-      let mobs := match chains with
+      let mobs :=
+        if getS kv "kind" == "grpcscen" then
+          let e := ";".intercalate (toks.map isolateEchoGrpc); s!"together={e} solo={e}"
+        else match chains with
         | some cs => match toks.mapM (isolateEcho cs) with
           | some es => let e := ";".intercalate es; s!"together={e} solo={e}"
           | none => "-"
